@@ -17,6 +17,9 @@ func propTable() map[string]PropSpec {
 	H := func(entry string, cosim int, args ...int) HarnessRun {
 		return HarnessRun{Entry: entry, Args: args, Cosim: cosim, Subst: swr}
 	}
+	L := func(entry string, cosim int, args ...int) HarnessRun {
+		return HarnessRun{Entry: entry, Args: args, Cosim: cosim, Subst: swr, Unwind: 40}
+	}
 	lemmas := []HarnessRun{H("VLemmaSwr", 0, 0), H("VLemmaSwr", 0, 1), H("VLemmaSwr", 0, 2), H("VLemmaSwr", 0, 3), H("VLemmaSwr", 0, 4), H("VLemmaSwr", 0, 5), H("VLemmaSwr", 0, 6)}
 	for i := range lemmas {
 		lemmas[i].Subst = nil // the lemma obligations run the real seriesWithRate in floating-point theory
@@ -43,8 +46,8 @@ func propTable() map[string]PropSpec {
 	}
 	t["C05"] = PropSpec{
 		ID: "C05", Pkg: coordPkg, NativeDir: "coordinator",
-		Quick:    []HarnessRun{H("VGC", 8, 2, 1), H("VGC", 8, 2, 2), H("VRelief", 4, 2, 1), H("VScaleDown", 4, 2, 1), H("VCycle", 8, 1, 1, 0), H("VCycle", 8, 2, 1, 8)},
-		Thorough: []HarnessRun{H("VGC", 8, 2, 2), H("VGC", 8, 3, 1), H("VGC", 8, 3, 2), H("VRelief", 4, 2, 2), H("VRelief", 4, 3, 1), H("VScaleDown", 4, 2, 2), H("VScaleDown", 4, 3, 1), H("VCycle", 8, 2, 1, 0), H("VCycle", 8, 2, 2, 8)},
+		Quick:    []HarnessRun{H("VGC", 8, 2, 1), H("VGC", 8, 2, 2), H("VTransfer", 2), H("VRelief", 4, 2, 1), H("VScaleDown", 4, 2, 1), H("VCycle", 8, 1, 1, 0), H("VCycle", 8, 2, 1, 40)},
+		Thorough: []HarnessRun{H("VGC", 8, 2, 2), H("VGC", 8, 3, 1), H("VGC", 8, 3, 2), H("VTransfer", 2), H("VCycle", 8, 2, 1, 8), H("VRelief", 4, 2, 2), H("VRelief", 4, 3, 1), H("VScaleDown", 4, 2, 2), H("VScaleDown", 4, 3, 1), H("VCycle", 8, 2, 1, 0), H("VCycle", 8, 2, 2, 8)},
 		Required: []string{"gc.handover", "gc.removed", "relief.moved", "scaledown.moved", "c05.moved", "c05.handover"},
 		Prefixes: []string{"C05."},
 		Bounds:   "gcTargets / relief / scale-down lemmas with S<=2, K<=2 (thorough S<=3); whole cycles at (1,1), (2,1) (thorough (2,1) with every shard kind, (2,2) in sync); the constant 3 of the hand-over rule is taken from README, not from the code",
@@ -159,24 +162,24 @@ func propTable() map[string]PropSpec {
 		Outside:  []string{"replica counts above 6, more than 2 claim templates or 3 pods", "label-selector plumbing inside client-go", "the 2-minute not-ready grace period against real time (only its logic against the symbolic clock)"},
 	}
 	t["C03"] = PropSpec{
-		ID: "C03", Pkg: coordPkg, NativeDir: "coordinator",
-		Quick:    append([]HarnessRun{H("VAssign", 6, 2, 2), H("VCycle", 12, 1, 1, 0), H("VCycle", 6, 2, 0, 0), {Entry: "VUpdateTarget", Pkg: "tkestack.io/kvass/pkg/shard", Args: []int{2}, Cosim: 4}}, lemmas...),
-		Thorough: append([]HarnessRun{H("VAssign", 6, 3, 2), H("VCycle", 12, 1, 1, 0), H("VCycle", 8, 1, 2, 0), H("VCycle", 8, 2, 1, 8), H("VCycle", 8, 2, 1, 0)}, lemmas...),
-		Required: []string{"c03.placed", "c03.allinsync", "c03.stability.checked", "assign.placed", "shard.update.keys.same"},
-		Prefixes: []string{"C03.", "C01.shard.update."},
-		Bounds:   "single-cycle layer only: scale-up clause, at-most-once / normal-state placement, placement-when-room (K=1) and the no-op-from-a-converged-state clause on whole cycles at (S,K) = (1,1), (2,0) (thorough + (1,2), (2,1)); assignNoScrapingTargets lemma with S<=2 (3), K<=2",
+		ID: "C03", Pkg: coordPkg, LoadPkgs: []string{"tkestack.io/kvass/pkg/sidecar"}, NativeDir: "coordinator",
+		Quick:    append([]HarnessRun{H("VAssign", 6, 2, 2), H("VCycle", 12, 1, 1, 0), H("VCycle", 6, 2, 0, 0), {Entry: "VUpdateTarget", Pkg: "tkestack.io/kvass/pkg/shard", Args: []int{2}, Cosim: 4}, L("VLoop", 8, 2, 1, 5, 0)}, lemmas...),
+		Thorough: append([]HarnessRun{H("VAssign", 6, 3, 2), H("VCycle", 12, 1, 1, 0), H("VCycle", 8, 1, 2, 0), H("VCycle", 8, 2, 1, 8), H("VCycle", 8, 2, 1, 0), L("VLoop", 8, 2, 1, 5, 0), L("VLoop", 8, 3, 1, 6, 0), {Entry: "VUpdateTarget", Pkg: "tkestack.io/kvass/pkg/shard", Args: []int{3}, Cosim: 4}}, lemmas...),
+		Required: []string{"c03.placed", "c03.allinsync", "c03.stability.checked", "assign.placed", "shard.update.keys.same", "loop.ran", "loop.end", "loop.overloaded"},
+		Prefixes: []string{"C03.", "C01.shard.update.", "C01.c.loop."},
+		Bounds:   "multi-cycle layer: closed loop of the real coordinator with S=2 (thorough 3) real sidecar bookkeepers (TargetsManager + runtimeInfo over the abstract store), K=1 target of concrete size, limits 1000 / 500-or-none, max-idle-time 0 or 1h, every initial placement (absent / normal / in_transfer per shard, scraped or not, shard 0 overloaded or not), 3 scrapes per assigned target and 2 h between cycles: converged within H=5 (6) cycles and one further cycle changes nothing; single-cycle layer: scale-up clause, at-most-once / normal-state placement, placement-when-room (K=1) and the no-op-from-a-converged-state clause on whole cycles at (S,K) = (1,1), (2,0) (thorough + (1,2), (2,1)); assignNoScrapingTargets lemma with S<=2 (3), K<=2",
 		Assume:   wfAssumptions,
-		Outside:  append([]string{"the multi-cycle quantifier (\"reaches within a bounded number of cycles\") is NOT covered: no closed loop of coordinator and sidecars over several cycles is explored; only necessary single-cycle consequences are decided", "stability is asserted for max-idle-time = 0 only"}, cycleOutside...),
+		Outside:  append([]string{"closed loops with more than one target (K>=2 explodes: >10^5 iteration orders per cycle) or with symbolic sizes: the multi-cycle layer uses K=1 and concrete sizes, the capacity questions are decided only per cycle", "later growth of series and targets added or removed during the run", "single-cycle stability is asserted for max-idle-time = 0 only"}, cycleOutside...),
 	}
 	t["C06"] = PropSpec{
-		ID: "C06", Pkg: coordPkg, NativeDir: "coordinator",
-		Quick:    []HarnessRun{H("VCycle", 12, 1, 1, 0), H("VCycle", 8, 2, 1, 8), {Entry: "VUpdateTarget", Pkg: "tkestack.io/kvass/pkg/shard", Args: []int{2}, Cosim: 4}},
-		Thorough: []HarnessRun{H("VCycle", 12, 1, 1, 0), H("VCycle", 8, 2, 1, 0), H("VCycle", 8, 2, 2, 8), {Entry: "VUpdateTarget", Pkg: "tkestack.io/kvass/pkg/shard", Args: []int{3}, Cosim: 4}},
-		Required: []string{"c06.lone", "c06.duplicate", "shard.update.keys.same"},
-		Prefixes: []string{"C06.", "C01.shard.update."},
-		Bounds:   "single-cycle progress lemmas from the states faults leave behind (a lone in_transfer copy; two copies on in-sync shards in every state / load / counter combination) on whole cycles at (S,K) = (1,1), (2,1) (thorough + (2,2) in sync)",
+		ID: "C06", Pkg: coordPkg, LoadPkgs: []string{"tkestack.io/kvass/pkg/sidecar"}, NativeDir: "coordinator",
+		Quick:    []HarnessRun{H("VCycle", 12, 1, 1, 0), H("VCycle", 8, 2, 1, 40), {Entry: "VUpdateTarget", Pkg: "tkestack.io/kvass/pkg/shard", Args: []int{2}, Cosim: 4}, L("VLoop", 8, 2, 1, 6, 1)},
+		Thorough: []HarnessRun{H("VCycle", 12, 1, 1, 0), H("VCycle", 8, 2, 1, 0), H("VCycle", 8, 2, 2, 8), {Entry: "VUpdateTarget", Pkg: "tkestack.io/kvass/pkg/shard", Args: []int{3}, Cosim: 4}, L("VLoop", 8, 2, 1, 6, 1), L("VLoop", 8, 3, 1, 7, 1)},
+		Required: []string{"c06.lone", "c06.duplicate", "shard.update.keys.same", "loop.fault", "loop.end"},
+		Prefixes: []string{"C06.", "C01.shard.update.", "C03.loop.", "C01.c.loop."},
+		Bounds:   "multi-cycle layer: the closed loop of C03 (S=2, thorough 3; K=1) with one fault at cycle 0 or 1 on any shard - a lost target POST, a shard not ready for one cycle, a sidecar restarted from its store - followed by fault-free cycles: converged within H=6 (7) cycles; single-cycle progress lemmas from the states faults leave behind (a lone in_transfer copy; two copies on in-sync shards in every state / load / counter combination) on whole cycles at (S,K) = (1,1), (2,1) (thorough + (2,2) in sync)",
 		Assume:   wfAssumptions,
-		Outside:  append([]string{"the multi-cycle quantifier (recovery within a bounded number of cycles after the last fault) is NOT covered; each fault-produced state is decided as a single-cycle progress obligation", "fault injection at harness-owned boundaries over several cycles (sidecar restart, scale-down) is not explored"}, cycleOutside...),
+		Outside:  append([]string{"more than one fault per run, faults later than cycle 1, K>=2 in the closed loop", "a shard removed by scaling as an injected fault (scale-down happens only as the coordinator's own decision in the idle-time variant)"}, cycleOutside...),
 	}
 	t["C19"] = PropSpec{
 		ID: "C19", Pkg: coordPkg, NativeDir: "coordinator",
@@ -191,8 +194,8 @@ func propTable() map[string]PropSpec {
 	explPkg := "tkestack.io/kvass/pkg/explore"
 	t["C20"] = PropSpec{
 		ID: "C20", Pkg: explPkg, LoadPkgs: []string{coordPkg}, NativeDir: "explore",
-		Quick:    []HarnessRun{{Entry: "VExploreKernel", Args: []int{1}, Cosim: 6}, {Entry: "VExploreKernel", Args: []int{2}, Cosim: 6}, {Entry: "VCycleExplore", Pkg: coordPkg, Subst: swr, Cosim: 2}},
-		Thorough: []HarnessRun{{Entry: "VExploreKernel", Args: []int{1}, Cosim: 8}, {Entry: "VExploreKernel", Args: []int{2}, Cosim: 8}, {Entry: "VCycleExplore", Pkg: coordPkg, Subst: swr, Cosim: 2}},
+		Quick:    []HarnessRun{{Entry: "VExploreKernel", Args: []int{1}, Cosim: 6}, {Entry: "VExploreKernel", Args: []int{2}, Cosim: 6}, {Entry: "VCycleExplore", Pkg: coordPkg, Subst: swr, Cosim: 2}, {Entry: "VExploreTable", Args: []int{2}, Cosim: 4}},
+		Thorough: []HarnessRun{{Entry: "VExploreKernel", Args: []int{1}, Cosim: 8}, {Entry: "VExploreKernel", Args: []int{2}, Cosim: 8}, {Entry: "VCycleExplore", Pkg: coordPkg, Subst: swr, Cosim: 2}, {Entry: "VExploreTable", Args: []int{3}, Cosim: 4}},
 		Required: []string{"explore.ok", "explore.failed", "explore.end", "explorecycle.ok", "explorecycle.failed"},
 		Prefixes: []string{"C20."},
 		Bounds:   "sequential kernel: Get / exploreOnce / UpdateTargets on a table of <= 2 targets with a scripted probe (success with symbolic counts < 2^30, failure, unknown job); estimate through the real UpdateScrapeResult in floating-point theory; the first-assignment clause on the observable: two real coordination cycles (one in-sync shard with room, one target) around one scripted probe with the real Explore.Get as the coordinator's estimate source",
